@@ -73,15 +73,15 @@ class extract_visitor(NodeVisitor):
         self.flow = cur
         return result
 
-    def bind_target(self, flow, target, location, value):
-        # type: (Flow, ast.AST, t.Any, ast.AST) -> None
+    def bind_target(self, flow, target, location, value, comprehension=False):
+        # type: (Flow, ast.AST, t.Any, ast.AST, bool) -> None
         for name, _ in get_indexes_for_target(target, [], []):
             if isinstance(name, Attribute):
                 self.top.add_attr_assign(flow.scope, name, value)
             elif isinstance(name, UNSUPPORTED_ASSIGMENTS):
                 continue
             else:
-                flow.add_name(AssignedName(name.id, location, np(name), value))
+                flow.add_name(AssignedName(name.id, location, np(name), value), comprehension)
 
     def visit_Assign(self, node):
         # type: (ast.Assign) -> None
@@ -312,7 +312,7 @@ class extract_visitor(NodeVisitor):
             p = self.make_flow('comp', [p])
             for nn, _idx in get_indexes_for_target(g.target, [], []):
                 nn.flow = pp  # type: ignore[union-attr]
-            self.bind_target(p, g.target, np(node), g.iter)
+            self.bind_target(p, g.target, np(node), g.iter, comprehension=True)
             self.visit_in_flow(g.target, p)
 
             if g.ifs:
